@@ -22,6 +22,10 @@ for tag, sym, tier in []:  # DecodeMotoDC as a whole exceeded the solver budget 
                     object_bits=12, tier=tier,
                     bounded="at most 2 arguments; repetition loops explored for counts <= 2 (the reservation arithmetic is checked for "
                             "every 32-bit count); string arguments not explored"))
+for e, fns in [("IntTypeDefs", ["asmpars_init", "RangeCheck"]), ("EvalStrInt_range", ["EvalStrIntExpressionWithResult", "RangeCheck"])]:
+    GROUPS.append(G("rng_" + e, "harness/C13/h_asmpars_sym.c", "h_" + e, enforce=[], link=["asmdef.c", "tempresult.c", "nonzstring.c", "bpemu.c"], stubs=["stubs/gerr.c"],
+                    unwind=70, timeout=600, dfcc=False, object_bits=12, defs=["-DSTRINGSIZE=64"], functions=fns,
+                    replace_calls=["EvalStrExpression:verif_EvalStrExpression"]))
 TRUSTED_BASE = ["CBMC's IEEE-754 conversion semantics for (float)x and (_Float16)x (round to nearest even) as specification oracle"]
 ASSUMPTIONS = ["host is little-endian IEEE (as built)"]
 NOT_COVERED = ["DecodeMotoDC statement loop (harness exists, exceeds solver budget; its helpers Enter* and the converters are under contract)", "vaxfloat.c", "ibmfloat.c", "ConvertMotoFloatDec", "tipseudo.c", "natpseudo.c", "fourpseudo.c"]
